@@ -125,7 +125,7 @@ func (channel *Channel) basicGet(method *amqp.BasicGet) (err *amqp.Error) {
 
 	channel.SendContent(&amqp.BasicGetOk{
 		DeliveryTag:  dTag,
-		Redelivered:  false,
+		Redelivered:  message.DeliveryCount > 0,
 		Exchange:     message.Exchange,
 		RoutingKey:   message.RoutingKey,
 		MessageCount: 1,
